@@ -41,6 +41,26 @@ type Fact struct {
 	Kind string `json:"kind"`
 	Expr string `json:"expr"`
 	N    int    `json:"n"`
+	// Sorted (range-map only): the enclosing function calls sort.* / sortkeys.* after the range
+	// statement starts — the syntactic footprint of "keys are collected, then sorted before use".
+	Sorted bool `json:"sorted"`
+}
+
+// sortsAfter reports whether body contains a call into package sort (or gogoproto sortkeys) at or
+// after pos.
+func sortsAfter(body *ast.BlockStmt, pos token.Pos) bool {
+	found := false
+	ast.Inspect(body, func(n ast.Node) bool {
+		if ce, ok := n.(*ast.CallExpr); ok && ce.Pos() >= pos {
+			if se, ok := ce.Fun.(*ast.SelectorExpr); ok {
+				if id, ok := se.X.(*ast.Ident); ok && (id.Name == "sort" || strings.HasSuffix(id.Name, "sortkeys")) {
+					found = true
+				}
+			}
+		}
+		return !found
+	})
+	return found
 }
 
 func exprString(fset *token.FileSet, e ast.Node) string {
@@ -182,7 +202,7 @@ func main() {
 								isMap = syn.isMapExpr(x.X, locals)
 							}
 							if isMap {
-								facts = append(facts, Fact{Pkg: dir, File: rel, Func: fn, Kind: "range-map", Expr: exprString(fset, x.X)})
+								facts = append(facts, Fact{Pkg: dir, File: rel, Func: fn, Kind: "range-map", Expr: exprString(fset, x.X), Sorted: sortsAfter(fd.Body, x.Pos())})
 							}
 						case *ast.GoStmt:
 							facts = append(facts, Fact{Pkg: dir, File: rel, Func: fn, Kind: "go-stmt", Expr: exprString(fset, x.Call.Fun)})
